@@ -11,7 +11,7 @@ use std::io::Write;
 const MAGIC_LEN: usize = 21;
 
 fn gen_any_dict(rng: &mut Rng) -> (GenDict, Vec<Op>) {
-    let go = GenOpts { force_space: false, allow_uncovered: false, with_user: 40, tie_heavy: false, malformed: false };
+    let go = GenOpts { force_space: false, allow_uncovered: false, with_user: 40, tie_heavy: false, malformed: false, many_ids: false };
     let mut gd = gen_dict(rng, &go);
     // only valid user rows here (rejection is C08's subject)
     if let Some(u) = gd.user.as_mut() {
